@@ -27,7 +27,7 @@ CLAUSES = {
 def check_library(lib: Dict[str, Any]) -> None:
     """S: the harness's concrete tables are the spec's library, and the spec's pattern semantics agrees with re."""
     for pid, v in schema_scen.PATTERNS.items():
-        if sorted(lib["pats"].get(pid, [])) != sorted(v["allowed"]):
+        if sorted(list(r) for r in lib["pats"].get(pid, [])) != sorted(v["ranges"]):
             raise core.MachineryFailure("pattern library differs between Constraints.tla and schema_scen.py: %s" % pid)
     for sid, vals in list(schema_scen.STR_SETS.items()) + list(schema_scen.ENUM_SETS.items()):
         if sorted(lib["sets"].get(sid, [])) != sorted(vals):
@@ -65,7 +65,7 @@ def main() -> int:
     ck = core.Check("C15", "model_checking")
     rnd = random.Random(ck.seed)
     suffix = "" if ck.quick else "_thorough"
-    nproc = min(12, os.cpu_count() or 4)
+    nproc = min(int(os.environ.get("VERIF_NPROC", "12")), os.cpu_count() or 4)
 
     replay = os.environ.get("VERIF_REPLAY")
     if replay:
